@@ -52,6 +52,13 @@ def js_round(x: float, ndigits: int = 0) -> float:
             return math.ceil(x * multiplier - 0.5) / multiplier
 
 
+def js_number(n: Union[int, float]) -> Union[int, float]:
+    """Round an exact integer result to a double once it leaves the safe integer range."""
+    if isinstance(n, int) and not -(2**53) <= n <= 2**53:
+        return float(n)
+    return n
+
+
 def js_mod(a: Union[int, float], b: Union[int, float]) -> Union[int, float]:
     """JavaScript % operator: the result takes the sign of the dividend."""
     if isinstance(a, int) and isinstance(b, int) and b != 0:
@@ -459,7 +466,7 @@ class VM:
         elif op == OpCode.SUB:
             b = self.stack.pop()
             a = self.stack.pop()
-            self.stack.append(to_number(a) - to_number(b))
+            self.stack.append(js_number(to_number(a) - to_number(b)))
 
         elif op == OpCode.MUL:
             b = self.stack.pop()
@@ -790,11 +797,11 @@ class VM:
         # Increment/Decrement
         elif op == OpCode.INC:
             a = self.stack.pop()
-            self.stack.append(to_number(a) + 1)
+            self.stack.append(js_number(to_number(a) + 1))
 
         elif op == OpCode.DEC:
             a = self.stack.pop()
-            self.stack.append(to_number(a) - 1)
+            self.stack.append(js_number(to_number(a) - 1))
 
         # Closures
         elif op == OpCode.MAKE_CLOSURE:
@@ -903,7 +910,7 @@ class VM:
         if isinstance(a, str) or isinstance(b, str):
             return to_string(a) + to_string(b)
         # Numeric addition
-        return to_number(a) + to_number(b)
+        return js_number(to_number(a) + to_number(b))
 
     def _to_int32(self, value: JSValue) -> int:
         """Convert to 32-bit signed integer."""
